@@ -168,6 +168,42 @@ def body(ctx):
         plan += cp
         # a cache history is one stateful trace: validate it on its own (not sharded)
         lanes.validate(ctx, "T_Cpuid.tla", hist, "c15cache%d" % k, plan_lines=plan)
+    # every ordered pair (first configuration, second configuration) of a small set, each in its own process: the second call must
+    # return what the first one detected (the process-wide cache), whatever the hardware presents by then
+    full = (1 << NF) - 1
+    small = [(0, 0b0000), (full, 0b1111), (0b11111, 0b0001), (full, 0b0111), (full & ~(1 << 10), 0b1111)][: ctx.q(4, 5)]
+    pair_events = []
+    for i, c1 in enumerate(small):
+        for j, c2 in enumerate(small):
+            cp = ["cpu cached - 0 %s - - -" % cfgrow(c1[0], c1[1], 0), "cpu cached - 0 %s - - -" % cfgrow(c2[0], c2[1], 1)]
+            pth = os.path.join(ctx.work, "cachepair.plan")
+            with open(pth, "w") as f:
+                f.write("\n".join(cp) + "\n")
+            vf.run_plan(exe, pth, pth + ".out")
+            hist = [json.loads(x) for x in open(pth + ".out")]
+            for e in hist:
+                e["id"] += nid
+            nid += len(cp)
+            plan += cp
+            pair_events.append(hist)
+    # (each history is its own stateful trace; they are validated in one TLC batch, one trace file per history)
+    files = []
+    for k, hist in enumerate(pair_events):
+        p = os.path.join(ctx.work, "cachepair%02d.ndjson" % k)
+        with open(p, "w") as f:
+            for e in hist:
+                f.write(json.dumps(e, separators=(",", ":")) + "\n")
+        files.append(p)
+    rejects, stats, errors = vf.tlc_validate("T_Cpuid.tla", files)
+    if errors:
+        raise vf.InfraError("TLC failed on a cache history %s rc=%s\n%s" % errors[0])
+    ctx.cov["traces_validated_against_impl"] += len(files)
+    ctx.cov["evaluations"] += sum(s.get("events", 0) for s in stats)
+    ctx.cov["trace_families"]["c15cachepairs"] = dict(events=sum(s.get("events", 0) for s in stats), accepted=sum(s.get("accepted", 0) for s in stats), rejected=len(rejects))
+    for rj in rejects[:10]:
+        i = int(rj["id"])
+        pthr = ctx.write_replay("cachepair-%s" % rj["id"], [plan[i - 2], plan[i - 1], "# " + json.dumps(rj)])
+        ctx.violations.append(("cache history rejected: %s" % {k: v for k, v in rj.items() if k != "trace"}, pthr))
     ctx.log("events: %d" % len(events))
     lanes.validate(ctx, "T_Cpuid.tla", events, "c15", plan_lines=plan)
     # non-trivial: a gate decided the outcome - a detection in which some advertised feature is NOT reported available (OS state or a missing
